@@ -80,6 +80,8 @@ func (d *unmarshalTextDecoder) DecodeStream(s *Stream, depth int64, p unsafe.Poi
 
 	if b, ok := unquoteBytes(dst); ok {
 		dst = b
+	} else if len(dst) > 0 && dst[0] == '"' {
+		return errors.ErrSyntax("json: invalid string literal for UnmarshalText", s.totalOffset())
 	}
 	v := *(*interface{})(unsafe.Pointer(&emptyInterface{
 		typ: d.typ,
@@ -131,6 +133,8 @@ func (d *unmarshalTextDecoder) Decode(ctx *RuntimeContext, cursor, depth int64, 
 
 	if s, ok := unquoteBytes(src); ok {
 		src = s
+	} else if len(src) > 0 && src[0] == '"' {
+		return 0, errors.ErrSyntax("json: invalid string literal for UnmarshalText", start)
 	}
 	v := *(*interface{})(unsafe.Pointer(&emptyInterface{
 		typ: d.typ,
